@@ -117,6 +117,23 @@ def once_table(ctx) -> None:
     ctx.check(isinstance(last, ast.Return) and core.src(last.value) == f'super()._missing_({v})' and not cfg.cguards(last, fake.node), 'C10.once-alias', fake, 'an unknown spelling falls through to the enum default (ValueError)', last, key='alias:fallthrough')
 
 
+def prepared_call(ctx) -> None:
+    """The window predicate built from the bounds is *applied*: Prepared.__call__ filters the statement by it whenever the
+    source is ordinal and a predicate exists (presence tested by ``is not None`` - the predicate object overloads bool), returns
+    the filtered statement, and refuses bounds for a source without an ordinal."""
+    prog = ctx.prog
+    fn = prog.func('forml.io._input.extract:Statement.Prepared.__call__')
+    lo, up = fn.param_names[1:3]
+    U = shared.stmt_under
+    U(ctx, 'C10.prepared', fn, f'where = self.ordinal.where({lo}, {up})', [('self.ordinal', True)], 'the window predicate is built from (lower, upper) for an ordinal source', 'prepared:where', inlined=False)
+    U(ctx, 'C10.prepared', fn, 'statement = statement.query.where(where)', [('self.ordinal', True), ('where is not None', True)], 'and applied to the statement whenever it exists', 'prepared:apply', inlined=False)
+    U(ctx, 'C10.prepared', fn, 'return statement', [], 'the (filtered) statement is what gets read', 'prepared:return', inlined=False, siblings=False)
+    rs = [r for r in core.walk_local(fn.node) if isinstance(r, ast.Raise)]
+    ctx.check(len(rs) == 1 and sorted(cfg.cguards(rs[0], fn.node)) == sorted([('self.ordinal', False), (f'{lo} is not None or {up} is not None', True)]), 'C10.prepared', fn, 'bounds given for a source without an ordinal are refused', rs[0] if rs else fn.node, key='prepared:refuse')
+    first = next((a for a in fn.body if isinstance(a, ast.Assign)), None)
+    ctx.check(first is not None and core.src(first) == 'statement = self.statement', 'C10.prepared', fn, 'the window is cut out of the prepared statement', first or fn.node, key='prepared:base')
+
+
 def where_construction(ctx, tenv) -> None:
     prog = ctx.prog
     fn = prog.func(f'{COMPONENT}:Source.Extract.Ordinal.where').inlined()
@@ -224,7 +241,11 @@ def run(ctx) -> None:
     tenv = types.TypeEnv(prog)
     resolver = calls.Resolver(prog, tenv)
     once_table(ctx)
+    prepared_call(ctx)
     where_construction(ctx, tenv)
+    from . import C06
+
+    C06.cache_key(ctx)  # consecutive windows of one shape differ in their bound literals only
     shared.operator_chain(ctx, 'C10.chain', only={'<', '<=', '>', '>='})
     # scope: ordinal bounds (Optional[dsl.Native]) anywhere, and optional ordinal features/specs
     n = shared.r_truthy(
